@@ -68,6 +68,18 @@ DIAG_SIMPLE = {1: "RestartCommunicationsOptionRequest", 2: "ReturnDiagnosticRegi
                19: "ReturnIopOverrunCountRequest", 20: "ClearOverrunCountRequest"}
 
 
+def diag_classes_of_module():
+    """{sub_function_code: class} of every concrete diagnostic request class the real module defines"""
+    import inspect
+    import pymodbus.diag_message as dm
+    out = {}
+    for name, cls in inspect.getmembers(dm, inspect.isclass):
+        if issubclass(cls, dm.DiagnosticStatusRequest) and isinstance(getattr(cls, "sub_function_code", None), int) \
+                and cls.__module__ == dm.__name__:
+            out[cls.sub_function_code] = cls
+    return out
+
+
 def build(q, addr=0, fill=0x1234):
     """spec-side request (tuple) -> (Coq term of q, fresh real request object)"""
     import pymodbus.bit_read_message as br
@@ -100,7 +112,7 @@ def build(q, addr=0, fill=0x1234):
     if k == "QDiagEcho":
         return "(QDiagEcho %s)" % z(q[1]), dm.ReturnQueryDataRequest([(fill + i) & 0xffff for i in range(q[1])] if q[1] != 1 or q[2] else fill)
     if k == "QDiagSimple":
-        cls = getattr(dm, DIAG_SIMPLE[q[1]])
+        cls = diag_classes_of_module()[q[1]]
         return "(QDiagSimple %s)" % z(q[1]), (cls() if q[1] != 3 else cls(0x0d00))
     if k == "QDiagListenOnly":
         return "QDiagListenOnly", dm.ForceListenOnlyModeRequest()
@@ -180,8 +192,11 @@ def pdu_requests(tier):
     for n in range(1, 126):
         qs.append((("QDiagEcho", n, True), "diag-echo"))
     qs.append((("QDiagEcho", 1, False), "diag-echo"))
-    for s in DIAG_SIMPLE:
-        qs.append((("QDiagSimple", s), "diag-simple"))
+    # every diagnostic class the real module defines (a class the model does not know shows up as a
+    # QDiagSimple case whose class name disagrees with the model)
+    for s in sorted(diag_classes_of_module()):
+        if s not in (0, 4, 21):
+            qs.append((("QDiagSimple", s), "diag-simple"))
     qs += [(("QDiagListenOnly",), "diag-listen-only"), (("QPlusGet",), "modbus-plus"), (("QPlusClear",), "modbus-plus")]
     return qs
 
@@ -327,8 +342,9 @@ def recv_requests(r, tier):
         out.append((("QWriteRegisters", n), "write", 0, r.choice([0x1234, 0x0001])))
     out += [(("QWriteCoil",), "write", 0, 0), (("QWriteRegister",), "write", 0, 0x0102),
             (("QMaskWrite",), "mask-write", 0, 0)]
-    for s in DIAG_SIMPLE:
-        out.append((("QDiagSimple", s), "diag", 0, 0))
+    for s in sorted(diag_classes_of_module()):
+        if s not in (0, 4, 21):
+            out.append((("QDiagSimple", s), "diag", 0, 0))
     out.append((("QDiagEcho", 1, False), "diag", 0, 0x0a0b))
     out += [(("QDiagListenOnly",), "diag-listen-only", 0, 0), (("QPlusGet",), "modbus-plus", 0, 0),
             (("QPlusClear",), "modbus-plus", 0, 0)]
@@ -355,8 +371,94 @@ def suite_recv(tier):
     return Suite("recv", IMPORTS, "chk_recv", cases, shard=300)
 
 
+# ----------------------------------------------------------------------------- real ModbusTcpClient
+
+def tcp_transaction(q, ctx, addr=0, fill=0x1234, unit=5):
+    """the real ModbusTcpClient (its own _send/_recv with select + socket.recv) over a socketpair whose
+    peer end already holds the reply frame the server side built; only the sizes are recorded"""
+    import socket
+    from pymodbus.client.sync import ModbusTcpClient
+    from pymodbus.factory import ServerDecoder
+    from pymodbus.framer.socket_framer import ModbusSocketFramer
+
+    class Recording(ModbusTcpClient):
+        asked = None
+        pair = None
+
+        def connect(self):           # never dial 127.0.0.1:502; re-attach the scripted socket after a close()
+            if not self.socket:
+                self.socket = self.pair[0]
+            return True
+
+        def close(self):
+            self.socket = None
+
+        def _recv(self, size):
+            self.asked.append(size)
+            return ModbusTcpClient._recv(self, size)
+
+    _, sreq = build(q, addr, fill)
+    sreq.unit_id, sreq.transaction_id = unit, 1
+    rsp = server_response(sreq, ctx)
+    reset_globals()
+    rsp.transaction_id = 1
+    body = rsp.encode()
+    frame = ModbusSocketFramer(ServerDecoder(), None).buildPacket(rsp) if rsp.should_respond else b""
+    _, req = build(q, addr, fill)
+    req.unit_id = unit
+    pred = req.get_response_pdu_size() if hasattr(req, "get_response_pdu_size") else None
+    a, b = socket.socketpair()
+    cli = Recording(timeout=0.05, retries=0)
+    cli.asked, cli.pair = [], (a, b)
+    try:
+        b.sendall(frame)
+        _, req2 = build(q, addr, fill)
+        req2.unit_id = unit
+        try:
+            out = cli.execute(req2)
+            outcome = type(out).__name__
+        except Exception as e:  # noqa: BLE001
+            outcome = "raised " + type(e).__name__
+        sent = b""
+        b.setblocking(False)
+        try:
+            sent = b.recv(4096)
+        except (BlockingIOError, OSError):
+            pass
+        a.setblocking(False)
+        try:
+            left = len(a.recv(65536))
+        except (BlockingIOError, OSError):
+            left = 0
+    finally:
+        a.close()
+        b.close()
+    return {"pred": pred, "frame": len(frame), "pdu": (1 + len(body)) if rsp.should_respond else 0, "esc": 0,
+            "fc": frame[7] if len(frame) > 7 else -1, "mbap": struct.unpack(">H", frame[4:6])[0] if len(frame) > 5 else 0,
+            "asked": list(cli.asked), "left": left, "outcome": outcome, "cls": type(req).__name__,
+            "exception": type(rsp).__name__ == "ExceptionResponse", "frame_hex": frame[:24].hex(),
+            "request_sent": len(sent)}
+
+
+def tcp_case(q, ctx, label, addr=0, fill=0x1234):
+    o = tcp_transaction(q, ctx, addr, fill)
+    term = ("{| rc_f := FSocket; rc_pred := %s; rc_frame := %s; rc_pdu := %s; rc_esc := 0; rc_fc := %s; "
+            "rc_mbap := %s; rc_asked := %s; rc_left := %s |}"
+            % (optz(o["pred"]), z(o["frame"]), z(o["pdu"]), z(o["fc"]), z(o["mbap"]),
+               lst(optz(x) for x in o["asked"]), z(o["left"])))
+    desc = dict(o, framing="FSocket", q=list(q), addr=addr, fill=fill, tcp_client=True)
+    return Case(term, desc, kind="tcp:%s" % label, nontrivial=o["frame"] > 0)
+
+
+def suite_tcp(tier):
+    r = common.rng("C14.tcp")
+    ctx = mk_context()
+    return Suite("tcp", IMPORTS, "chk_recv",
+                 [tcp_case(q, ctx, label, addr, fill) for q, label, addr, fill in recv_requests(r, tier)], shard=300)
+
+
 def suites(tier):
-    return [suite_pdu(tier), suite_recv(tier)]
+    return [suite_pdu(tier), suite_recv(tier), suite_tcp(tier)]
 
 
 # ----------------------------------------------------------------------------- findings / replay
@@ -366,7 +468,7 @@ def classify(suite, desc):
         return F_PLUS
     if desc.get("cls") == "ForceListenOnlyModeRequest":
         return F_LISTEN
-    if suite == "recv":
+    if suite in ("recv", "tcp"):
         if desc.get("framing") == "FTls" and desc.get("exception"):
             return F_TLSEXC
         if desc.get("framing") == "FBinary" and desc.get("esc", 0) > 0:
@@ -403,6 +505,9 @@ def replay_case(suite, desc):
     if suite == "pdu":
         c = pdu_case(tuple(desc["q"]), ctx, "replay")
         r = coqrun.eval_cases("C14_replay", IMPORTS, "chk_pdu", [c.term])
+    elif desc.get("tcp_client"):
+        c = tcp_case(tuple(desc["q"]), ctx, "replay", desc.get("addr", 0), desc.get("fill", 0))
+        r = coqrun.eval_cases("C14_replay", IMPORTS, "chk_recv", [c.term])
     else:
         c = recv_case(desc["framing"], tuple(desc["q"]), ctx, "replay", desc.get("addr", 0), desc.get("fill", 0))
         r = coqrun.eval_cases("C14_replay", IMPORTS, "chk_recv", [c.term])
